@@ -2,7 +2,7 @@
    Only ExtrOcamlBasic's directives are used; N, Z, positive and nat stay
    extracted datatypes.  Run coqc on this file from /verif/ocaml. *)
 From Coq Require Extraction ExtrOcamlBasic.
-From NTRIP Require Import Base Bits Crc Time Classify Frame FrameSpec TimeSpec History Msm MsmSpec Station.
+From NTRIP Require Import Base Bits Crc Time Classify Frame FrameSpec TimeSpec History Msm MsmSpec Station Html Queue.
 Extraction Language OCaml.
 Extraction "model.ml"
   bytes_okb slice
@@ -15,4 +15,5 @@ Extraction "model.ml"
   valid_frameb frame_type wf_segsb flatten merge_junk expected
   week_start enc event_frame admissibleb answer run_frames run_history report_ok msm_time_frame frame_of_payload
   decode_msm4 decode_msm7 decode1005 decode1006 msm_frame view wf_amsm payload_bytes msm_bits
-  station_frame wf_station station_bits.
+  station_frame wf_station station_bits
+  sanitise no_markup new_queue qadd snapshot lastn.
